@@ -5,6 +5,16 @@ ROOT = os.path.dirname(os.path.dirname(os.path.abspath(__file__)))
 
 CHECKS = {
  # id: (engine, category, technique, level text, level note, design_ref)
+ "C13": ("store", "exploration",
+   "model-based stateful property testing: generated histories of id_for/put/get/delete/update/remove/clear/read_map with reopen points against an in-memory reference map, on RocksDB and on the in-memory store; child-process SIGKILL at generated points",
+   "1.2e4 (quick) histories on a real RocksDB directory per case with real close/reopen, 2e5 on the in-memory store, over 1-3 agent uris x 1-4 items with adversarial names and keys (empty, shared prefixes, a/b vs a+b, 0x00/0xFF, lengths around the key prefix size): after every mutating op or reopen every item used so far is read back and compared with the model (the addressed item and all others = isolation), ids must be stable across reopen and injective. 3e3 kill cases re-execute the binary as a child that acknowledges each op on a pipe and is SIGKILLed at generated points: every acknowledged op must be present, the unacknowledged one atomically present or absent.",
+   "Trusts: kill moments are sampled, not enumerated (async-kill replays may not reproduce; self-kill cases do); power loss is out of scope; read_map order is not asserted (the trait gives none). Known finding excluded by signature: RocksDB allocates ids for uri+\"/\"+name, so (/a,b/c) and (/a/b,c) share one id and one value/map.",
+   "DESIGN.md §4 C13"),
+ "C16": ("pure", "exploration",
+   "property-based differential testing: a battery of 49 derived/built-in Form types with generated instances, printer output of other types, schema-violating near-miss values and arbitrary model values; oracles: model round trip, direct-vs-via-model reader agreement on identical text, MessagePack round trips",
+   "2.27e6 cases quick over 42 derive(Form) structs/enums (tag, rename, header, header_body, attr, body, slot, skip, generics, nesting, collections, newtype, unit, tuple, enums) and 7 built-ins: try_from_value(as_value(v)) == v and try_convert(into_value(v)) == v; parse_recognize::<T>(text) and parse_recognize::<Value>(text) followed by try_from_value must agree on accept/reject and on the value, for the type's own print (three printers), the print of other battery types, values 1-3 structural edits away from the schema (library print and a variant-syntax writer) and arbitrary model values; MessagePack write/read == v and MessagePack of as_value() read as T == v.",
+   "Trusts: signatures of reader disagreements name the mechanism (rejecting path + recogniser error cell), not the type, because the recogniser state machines are shared by all derived types. Known findings excluded by signature: the Value bridge presents an empty attribute body as Extant / a unit field in an attribute (root cause G), a newtype around a Vec in an attribute (H).",
+   "DESIGN.md §4 C16"),
  "C05": ("agentsim+faults", "fault_enumeration",
    "stateful property-based testing with crash-point injection: generated update histories against the real agent + runtime with a recording, fault-injecting NodePersistence; cuts (panic inside store call #n, store error, drop after poll #p / frame #f, clean stop, timeout), restart on the surviving store and comparison with the fold of the acknowledged log",
    "Each evaluation is one (history, cut) execution including restart: C01/C02-style histories over persistent and transient value/map lanes and stores run through run_agent_with_store with a harness store that logs every call with the global sequence number and can fail inside call #n. After the cut a fresh agent is started on the surviving data, a new remote syncs every lane and every item is read in on_start and by a probe. Oracles: every event frame of a persistent lane was handed to the store before any remote read it; every persistent item restarts as the fold of the applied log (never older than anything a subscriber saw); transient items restart at their defaults. Quick samples cuts (4.6e5 evaluations) and enumerates all cuts for 600 histories; thorough enumerates every store cut x 3 fault modes, every frame cut, stop after every op for 6e4 histories.",
@@ -99,6 +109,7 @@ def main():
             {"name": "rawlane", "path": "/verif/harness/c04", "serves_properties": ["C04"], "kind_free_text": "real agent runtime around a harness Agent that speaks the lane protocol; lane output is part of the generated op list"},
             {"name": "dlimpl", "path": "/verif/harness/c08", "serves_properties": ["C08"], "kind_free_text": "real client downlink tasks and agent-hosted downlinks fed identical generated notification sequences; reference fold"},
             {"name": "enum", "path": "/verif/harness/c12 c17 c20", "serves_properties": ["C12","C17","C20"], "kind_free_text": "bounded-exhaustive enumeration of op sequences on the real implementation with counting wakers / reference models"},
+            {"name": "store", "path": "/verif/harness/c13", "serves_properties": ["C13"], "kind_free_text": "model-based histories on RocksDB (real directories, reopen, child-process SIGKILL) and the in-memory store"},
             {"name": "pure", "path": "/verif/harness/c09 c10 c15 c16 c18 c19 (+ vgen, vcommon)", "serves_properties": ["C09","C10","C15","C16","C18","C19"], "kind_free_text": "proptest TestRunner / bounded-exhaustive enumeration over pure functions with explicit oracles"},
         ],
         "checks": checks,
